@@ -75,6 +75,16 @@ macro_rules! rec_stubs {
     };
 }
 
+macro_rules! anykey_stubs {
+    ($(#[$m:meta])* fn $name:ident() $body:block) => {
+        adss_stubs! {
+            #[kani::stub(star_sharks::Sharks::recover, sharks_recover_any_key)]
+            $(#[$m])*
+            fn $name() $body
+        }
+    };
+}
+
 /// threshold 1: the single share recovers exactly the message (real interpolation with
 /// the C07 field laws; `Sharks::recover`'s selection logic by its Engine-M-proved model)
 fn recover_t1(ml: usize, rl: usize) {
@@ -148,9 +158,31 @@ fn fault(lo: usize, hi: usize, must_reject: bool) {
     let nbs: [u8; 64] = kani::any();
     ro_reset();
     let sh = adss::Commune::new(1, m.to_vec(), r.to_vec(), None).share().unwrap();
-    let mut e = sh.to_bytes();
+    core::mem::forget(sh);
+    // The encoded share, assembled on the stack from the permutation log: this is exactly
+    // what `share()` + `to_bytes()` produce (obligation c16_structure_*), without dragging
+    // the heap copies of the encoder through the model checker.
     // layout (ml = rl = 2): A 0..4 | len 4..8 | x 8..32 | y 32..56 | len 56..60 | C 60..62 | len 62..66 | D 66..68 | J 68..132
-    assert!(e.len() == 132);
+    let mut e = [0u8; 132];
+    e[0] = 1;
+    e[4] = 48;
+    let x = unsafe { FP_RANDOM_LOG[0] };
+    e[8..16].copy_from_slice(&x[0].to_le_bytes());
+    e[16..24].copy_from_slice(&x[1].to_le_bytes());
+    e[24..32].copy_from_slice(&x[2].to_le_bytes());
+    e[32..40].copy_from_slice(&unsafe { RO_OUT[3][0] }.to_le_bytes());
+    e[40..48].copy_from_slice(&unsafe { RO_OUT[3][1] }.to_le_bytes());
+    e[56] = 2;
+    e[60] = m[0] ^ out_byte(6, 0);
+    e[61] = m[1] ^ out_byte(6, 1);
+    e[62] = 2;
+    e[66] = r[0] ^ out_byte(7, 0);
+    e[67] = r[1] ^ out_byte(7, 1);
+    let mut i = 0;
+    while i < 64 {
+        e[68 + i] = out_byte(2, i);
+        i += 1;
+    }
     let mut changed = false;
     let mut i = lo;
     while i < hi {
@@ -175,14 +207,51 @@ fn fault(lo: usize, hi: usize, must_reject: bool) {
         }
         core::mem::forget((v, c));
     }
-    core::mem::forget(e);
 }
-rec_stubs! { #[kani::unwind(5)] fn c05_fault_threshold() { fault(0, 4, true) } }
-rec_stubs! { #[kani::unwind(5)] fn c05_fault_x() { fault(8, 32, false) } }
-rec_stubs! { #[kani::unwind(5)] fn c05_fault_y() { fault(32, 56, false) } }
-rec_stubs! { #[kani::unwind(5)] fn c05_fault_c() { fault(60, 62, true) } }
-rec_stubs! { #[kani::unwind(5)] fn c05_fault_d() { fault(66, 68, true) } }
-rec_stubs! { #[kani::unwind(5)] fn c05_fault_j() { fault(68, 132, true) } }
+/// the unaltered assembled encoding recovers (vacuity / faithfulness witness of `fault`)
+fn fault_none() {
+    let m: [u8; 2] = kani::any();
+    let r: [u8; 2] = kani::any();
+    ro_reset();
+    let sh = adss::Commune::new(1, m.to_vec(), r.to_vec(), None).share().unwrap();
+    let real = sh.to_bytes();
+    let mut e = [0u8; 132];
+    e[0] = 1;
+    e[4] = 48;
+    let x = unsafe { FP_RANDOM_LOG[0] };
+    e[8..16].copy_from_slice(&x[0].to_le_bytes());
+    e[16..24].copy_from_slice(&x[1].to_le_bytes());
+    e[24..32].copy_from_slice(&x[2].to_le_bytes());
+    e[32..40].copy_from_slice(&unsafe { RO_OUT[3][0] }.to_le_bytes());
+    e[40..48].copy_from_slice(&unsafe { RO_OUT[3][1] }.to_le_bytes());
+    e[56] = 2;
+    e[60] = m[0] ^ out_byte(6, 0);
+    e[61] = m[1] ^ out_byte(6, 1);
+    e[62] = 2;
+    e[66] = r[0] ^ out_byte(7, 0);
+    e[67] = r[1] ^ out_byte(7, 1);
+    let mut i = 0;
+    while i < 64 {
+        e[68 + i] = out_byte(2, i);
+        i += 1;
+    }
+    assert!(real.len() == 132);
+    let mut i = 0;
+    while i < 132 {
+        assert!(real[i] == e[i], "the assembled encoding is the real encoding of the share");
+        i += 1;
+    }
+    kani::cover!(true, "reached");
+    core::mem::forget((sh, real));
+}
+rec_stubs! { #[kani::unwind(5)] fn c05_fault_model_faithful() { fault_none() } }
+// The Shamir layer is an arbitrary function here (`sharks_recover_any_key`): an altered
+// threshold / C / D / J must be rejected *whatever* key interpolation yields, and altered
+// points or values (x, y) only change that key, which `c05_any_interpolated_key` covers.
+anykey_stubs! { #[kani::unwind(5)] fn c05_fault_threshold() { fault(0, 4, true) } }
+anykey_stubs! { #[kani::unwind(5)] fn c05_fault_c() { fault(60, 62, true) } }
+anykey_stubs! { #[kani::unwind(5)] fn c05_fault_d() { fault(66, 68, true) } }
+anykey_stubs! { #[kani::unwind(5)] fn c05_fault_j() { fault(68, 132, true) } }
 
 /// the key supplied by interpolation is arbitrary (any mixture of foreign / altered /
 /// surplus points): recovery still returns an error or exactly the first share's message
@@ -203,26 +272,7 @@ fn any_key() {
     }
     core::mem::forget((v, c));
 }
-#[kani::proof]
-#[kani::stub(keccak::f1600, f1600_ro)]
-#[kani::stub(<byteorder::LittleEndian as byteorder::ByteOrder>::read_u64_into, read_u64_into_25)]
-#[kani::stub(<byteorder::LittleEndian as byteorder::ByteOrder>::write_u64_into, write_u64_into_25)]
-#[kani::stub(zeroize::optimization_barrier, barrier_noop)]
-#[kani::stub(<strobe_rs::Strobe as core::ops::Drop>::drop, strobe_drop_noop)]
-#[kani::stub(<adss::AccessStructure as core::ops::Drop>::drop, drop_noop_access)]
-#[kani::stub(<adss::Commune as core::ops::Drop>::drop, drop_noop_commune)]
-#[kani::stub(<rand::rngs::OsRng as rand_core::RngCore>::next_u64, osrng_next_u64_nz)]
-#[kani::stub(star_sharks::Fp::is_valid, fp_is_valid_assume)]
-#[kani::stub(rand_core::impls::next_u64_via_fill, next_u64_via_fill_counted)]
-#[kani::stub(<star_sharks::Fp as ff::PrimeField>::from_repr, fp_from_repr_spec)]
-#[kani::stub(<star_sharks::Fp as ff::PrimeField>::to_repr, fp_to_repr_spec)]
-#[kani::stub(<star_sharks::Fp as core::ops::MulAssign<&star_sharks::Fp>>::mul_assign, fp_mul_assign_laws)]
-#[kani::stub(<star_sharks::Fp as ff::Field>::invert, fp_invert_laws)]
-#[kani::stub(star_sharks::Sharks::recover, sharks_recover_any_key)]
-#[kani::unwind(5)]
-fn c05_any_interpolated_key() {
-    any_key()
-}
+anykey_stubs! { #[kani::unwind(5)] fn c05_any_interpolated_key() { any_key() } }
 
 /// fewer than threshold distinct shares: `adss::recover` propagates the refusal of the
 /// Shamir layer before touching any ciphertext (C02 counting gate, adss level)
